@@ -2,7 +2,7 @@
 history and which value is reported as the final objective value.
 
 K   : the real `_get_iter_df` on generated frames (ITERATION, a position column, OBJ incl. NaN) vs Lean `IterDf.getIterDf`
-      (PharmpyModel/C20/IterDf.lean, driver op `iterdf`), including pandas' label enlargement of `df.at[0, 'ITERATION'] = 0`.
+      (PharmpyModel/C20/IterDf.lean, driver op `iterdf`), both branches.
 Mon : an .ext file rendered by the reference writer, read with NONMEMTableFile and passed to the real `_parse_ofv`: when the last
       table has a row -1000000000 (the row NONMEM designates for the final value) the reported final OFV is that row's OBJ.
 """
@@ -47,7 +47,8 @@ def corpus():
         {"kind": "iterdf", "rows": [[0, 5], [10, 3], [FINAL, 2], [FINAL - 1, 0]], "seed": 901},   # known: designated row differs from last iteration
         {"kind": "iterdf", "rows": [[0, 5], [10, 3], [FINAL, 3], [FINAL - 1, 0]], "seed": 902},
         {"kind": "iterdf", "rows": [[FINAL, 3], [FINAL - 1, 0]], "seed": 903},                      # evaluation only
-        {"kind": "iterdf", "rows": [[-5, 3], [FINAL, 3]], "seed": 904},                             # enlargement: label 0 not kept
+        {"kind": "iterdf", "rows": [[-5, 3], [FINAL, 3]], "seed": 904},                             # fixed: designated row not first, no iteration 0
+        {"kind": "iterdf", "rows": [[1, 1], [18, 6], [30, 3], [FINAL, 3], [FINAL - 1, 0]], "seed": 908},
         {"kind": "iterdf", "rows": [[0, 5], [10, None]], "seed": 905},
         {"kind": "iterdf", "rows": [[-5, 1]], "seed": 906},
         {"kind": "iterdf", "rows": [[0, 4], [7, 4]], "seed": 907},                                 # no designated row
